@@ -405,7 +405,10 @@ class _ActionHelpClassPath(Action):
         if not any(is_subclass(val_class, b) or implements_protocol(val_class, b) for b in self._baseclasses):
             raise TypeError(f'{option_string}: Class "{value}" is not a {self._kind} {self._basename}')
         dest = re.sub("\\.help$", "", self.dest)
-        subparser = type(parser)(description=f"Help for {option_string}={get_import_path(val_class)}")
+        subparser = type(parser)(
+            description=f"Help for {option_string}={get_import_path(val_class)}",
+            exit_on_error=parser.exit_on_error,
+        )
         if ActionTypeHint.is_callable_typehint(typehint) and hasattr(typehint, "__args__"):
             self.sub_add_kwargs["skip"] = {max(0, len(typehint.__args__) - 1)}
         subparser.add_class_arguments(val_class, dest, **self.sub_add_kwargs)
